@@ -656,7 +656,7 @@ static bool valid (const Cmd& c)
   if (o == "pb" || o == "rszv") return argok;
   if (o == "ins" || o == "insn") return static_cast<std::size_t> (c.p) <= sz && argok;
   if (o == "insm") return static_cast<std::size_t> (c.p) <= sz;
-  if (o == "insr") return static_cast<std::size_t> (c.p) <= sz && (c.it == "fw" || static_cast<std::size_t> (c.p) == sz || c.vals.empty ());
+  if (o == "insr") return static_cast<std::size_t> (c.p) <= sz;
   if (o == "era") return static_cast<std::size_t> (c.p) < sz;
   if (o == "erar") return c.p <= c.q && static_cast<std::size_t> (c.q) <= sz;
   if (o == "pop") return sz > 0;
@@ -1098,11 +1098,13 @@ static void run_line (const std::string& line_in)
   {
     Info f = info (c.x);
     bool growing = o == "pb" || o == "pbm" || o == "ins" || o == "insm" || o == "insn" || o == "insr" || o == "rsz" || o == "rszv" || o == "asn" || o == "asr" || o == "app";
-    bool single_pass_mid = false;
-    if (growing && f.size <= before_x.f.cap && ! single_pass_mid)
+    // the temporary buffering of a single-pass range inserted mid-sequence may allocate (C04's stated exception);
+    // the container's own buffer must stay where it is all the same (C10)
+    bool single_pass_mid = o == "insr" && c.it == "in" && static_cast<std::size_t> (c.p) < before_x.f.size;
+    if (growing && f.size <= before_x.f.cap)
     {
       if (f.cap != before_x.f.cap || f.data != before_x.f.data) wmsg ("C10", o + ": result fits in the old capacity but capacity()/data() changed");
-      if (g_allocs_this_op != 0) wmsg ("C04", o + ": result fits in the old capacity but allocate was called");
+      if (g_allocs_this_op != 0 && ! single_pass_mid) wmsg ("C04", o + ": result fits in the old capacity but allocate was called");
     }
     if (o == "asc" && f.size <= before_x.f.cap && (before_x.f.alloc == before_y.f.alloc || ! A_POCCA || A_AE))
     {
